@@ -70,6 +70,13 @@ fn run_t<T: Elem>(case: &mut Case) -> Result<Outcome, String> {
     if case.src.below(8) != 0 {
         u[du] = gen_nz::<T>(&mut case.src, fl);
     }
+    // float data at any scale: dividend and divisor scaled independently by exact powers of two (|k| <= 200)
+    if fl != Flavor::Exact && case.src.below(3) == 0 {
+        let (ku, kv) = (case.src.small_int(200) as i32, case.src.small_int(200) as i32);
+        u = u.iter().map(|c| c.scale2(ku)).collect();
+        v = v.iter().map(|c| c.scale2(kv)).collect();
+        case.class("operands scaled by 2^k, |k| <= 200");
+    }
     let (pu, pv) = (Polynomial::<T>::new(u.clone()), Polynomial::<T>::new(v.clone()));
     let fname = match fl {
         Flavor::Exact => "exact-data",
@@ -155,7 +162,7 @@ impl Prop for C12 {
     }
     fn rule(&self) -> String {
         "dividend of degree 0..=10 (leading coefficient zero with probability 1/8) and divisor of degree 0..=6 with non-zero leading coefficient (constants and divisors longer than the dividend included) over \
-         {rationals; f64 and Complex<f64> with small-integer data, integer-valued data up to 60 (1/49-type quotients), general data with full random mantissas and coefficient ratio up to 2^20}; \
+         {rationals; f64 and Complex<f64> with small-integer data, integer-valued data up to 60 (1/49-type quotients), general data with full random mantissas and coefficient ratio up to 2^20; float operands additionally scaled by independent powers of two 2^k, |k| <= 200, with probability 1/3}; \
          1/10 of the cases use an empty or all-zero divisor and must return Err. Oracle: Ok((q,r)) (an Err or a panic is a violation), operands unchanged, r = 0 or deg r < deg v on the returned representation, \
          no zero leading coefficient in q, and u = q v + r exactly (rationals) or coefficient-wise within 256*eps*(sum|q_i||v_{k-i}| + |r_k| + |u_k|) evaluated in double-double (floats). \
          Non-trivial: deg u >= deg v >= 1 and (float data, or rational data with a non-unit leading divisor coefficient). distinct = distinct decoded choice sequence."
